@@ -2,7 +2,7 @@
    class-table model Sem/ClassModel.v of Inherit._patch (source pinned by Gen/ObjPin.v) over the C3 linearisation Py/Mro.v. *)
 From Coq Require Import List Bool String.
 Import ListNotations.
-Require Import Base Mro Show ClassModel ObjPin Inherit.
+Require Import Base Mro Show ClassModel ObjPin Inherit Interp ObjModel InheritHeap HeapPatchers HeapFrame HeapCheck.
 Open Scope string_scope.
 
 Theorem C11_own : forall n t cls name owner m c,
@@ -32,3 +32,62 @@ Example C11_nonvacuous :
   mro_of (hierarchy dia) "D" = ["D"; "B"; "C"; "A"; "object"] /\
   enforced dia "D" "m" = [3; 1; 2; 1].
 Proof. split; vm_compute; reflexivity. Qed.
+
+(* ---- on the heap-level model (Sem/InheritHeap.v: registries, patchers and class dictionaries as mutable shared objects) ---- *)
+(* "Methods without a contracted ancestor behave unchanged", and more: whatever is looked up, on whatever class, in whatever order,
+   the registry of a method that is not marked inherit stays as it is (and the method stays in its class) *)
+Theorem C11_plain_method_registry_unchanged : forall rank fuel w cls w1 res c o r,
+  wwf w -> hier_ok w rank -> attr_of w c = Some (AFunc o) -> own_wrapper (w_heap w) o = Some r ->
+  getattr_n fuel w cls = Some (w1, res) ->
+  get_reg (w_heap w1) r = get_reg (w_heap w) r /\ attr_of w1 c = Some (AFunc o).
+Proof. exact plain_method_registry_unchanged. Qed.
+Print Assumptions C11_plain_method_registry_unchanged.
+(* every registry that exists and is not the own registry of an inherit-marked method held by no class as a plain method *)
+Theorem C11_lookup_frame : forall rank fuel w cls w1 res r,
+  wwf w -> hier_ok w rank -> getattr_n fuel w cls = Some (w1, res) ->
+  r < nregs (w_heap w) -> ~ Mut w r -> get_reg (w_heap w1) r = get_reg (w_heap w) r.
+Proof. exact lookup_frame. Qed.
+Print Assumptions C11_lookup_frame.
+(* the hypotheses are preserved, so the two statements hold along any sequence of look-ups *)
+Theorem C11_lookup_preserves_wf : forall rank fuel w cls w1 res,
+  wwf w -> hier_ok w rank -> getattr_n fuel w cls = Some (w1, res) -> wwf w1 /\ hier_ok w1 rank.
+Proof.
+  intros rank fuel w cls w1 res W H0 Hg. destruct (getattr_ok rank fuel w cls w1 res W H0 Hg) as (W1 & E1 & _).
+  split; [exact W1|eapply hier_ok_ext; eassumption].
+Qed.
+Print Assumptions C11_lookup_preserves_wf.
+(* no look-up and no class statement changes the marker set of a patcher that exists: a has() contract of another function, or of
+   the base class method, admits afterwards what it admitted before *)
+Theorem C11_patcher_markers_never_change : forall fuel w cls w1 r p m,
+  nlookup p (h_pmarkers (w_heap w)) = Some m -> getattr_n fuel w cls = Some (w1, r) -> markers_of (w_heap w1) p = m.
+Proof. exact patcher_markers_never_change. Qed.
+Print Assumptions C11_patcher_markers_never_change.
+Theorem C11_patcher_markers_survive_definitions : forall fuel patchers l w p m,
+  nlookup p patchers = Some m -> define_all fuel (world0 patchers) l = Some w -> markers_of (w_heap w) p = m.
+Proof. exact patcher_markers_survive_definitions. Qed.
+Print Assumptions C11_patcher_markers_survive_definitions.
+(* the hypotheses are decidable; the C11 family evaluates them on every world of every generated scenario *)
+Theorem C11_hypotheses_checkable : forall w, wwf_b w = true -> hier_ok_b w = true -> wwf w /\ hier_ok w (rank_of w).
+Proof. intros w A B. split; [apply wwf_b_sound; exact A|apply hier_ok_b_sound; exact B]. Qed.
+Print Assumptions C11_hypotheses_checkable.
+
+(* non-vacuity: B1.m has('stdout') + pre 10, B2.m has('network') + pre 20, C(B1, B2).m marked inherit, D(B1) and E(B1) class-decorated
+   (two Inherit objects holding B1's function): all worlds on the way satisfy the hypotheses; C enforces both, B1 is as it was *)
+Definition heap_classes : list cspec :=
+  [ {| cs_name := "B1"; cs_bases := []; cs_method := Some {| ms_steps := [SHas 1; SVal KPre 10]; ms_inherit := false |}; cs_inherit := false |};
+    {| cs_name := "B2"; cs_bases := []; cs_method := Some {| ms_steps := [SHas 2; SVal KPre 20]; ms_inherit := false |}; cs_inherit := false |};
+    {| cs_name := "C"; cs_bases := ["B1"; "B2"]; cs_method := Some {| ms_steps := []; ms_inherit := true |}; cs_inherit := false |};
+    {| cs_name := "D"; cs_bases := ["B1"]; cs_method := None; cs_inherit := true |};
+    {| cs_name := "E"; cs_bases := ["B1"]; cs_method := None; cs_inherit := true |} ].
+Definition heap_patchers := [(1, ["stdout"]); (2, ["network"])].
+Definition after (qs : list string) : option world :=
+  fold_left (fun ow c => match ow with Some w => option_map fst (getattr_n 40 w c) | None => None end) qs (define_all 40 (world0 heap_patchers) heap_classes).
+Definition force (ow : option world) (c : string) :=
+  match ow with Some w => match getattr_n 40 w c with Some (w1, Some o) => Some (in_force (w_heap w1) o) | _ => None end | None => None end.
+Example C11_heap_nonvacuous :
+  run_case_wf heap_patchers heap_classes = true /\
+  force (after []) "C" = Some ([(KPre, 10); (KPre, 20)], Some ["stdout"; "network"]) /\
+  force (after ["C"; "D"; "E"]) "B1" = Some ([(KPre, 10)], Some ["stdout"]) /\
+  force (after ["E"; "C"]) "D" = Some ([(KPre, 10)], Some ["stdout"]) /\
+  match after ["C"; "D"; "E"] with Some w => wwf_b w && hier_ok_b w | None => false end = true.
+Proof. vm_compute. repeat split. Qed.
